@@ -628,7 +628,7 @@ except ImportError as e:
 
 def pretty_print_source(source, prefix="", is_markdown=False, config=DefaultConfig):
     pretty_print_key("source", prefix, config)
-    if not prefix.strip() and (is_markdown or config.language):
+    if config.use_color and not prefix.strip() and (is_markdown or config.language):
         source_highlighted = colorize_source(
             source,
             'markdown' if is_markdown else config.language
